@@ -9,4 +9,14 @@ def edge_sig(sig, e, v):
         m = re.match(r".*?,(\w+)\[", e["args"])
         buf = m.group(1) if m else "?"
         sig["fact_load_emitted"] = bool(re.search(r"^\s*stg\[.*\] = " + re.escape(buf) + r"\[", tb, re.M))
+    ta = e.get("text_a") or ""
+    if sig.get("class") in ("scope", "safety") and sig.get("detail") in ("", "unbound"):
+        # does an allocation's shape in the source mention an enclosing loop iterator?
+        iters = set(re.findall(r"^\s*for (\w+) in ", ta, re.M))
+        hit = False
+        for m in re.finditer(r"^\s*\w+: \w+\[(.*)\] @", ta, re.M):
+            if set(re.findall(r"[A-Za-z_]\w*", m.group(1))) & iters:
+                hit = True
+        sig["fact_alloc_shape_uses_iter"] = hit
+        sig["fact_source_has_window_stmt"] = bool(re.search(r"^\s*\w+ = \w+\[[^\]]*:[^\]]*\]\s*$", ta, re.M))
     return sig
